@@ -88,8 +88,10 @@ impl TryFrom<(FeelNumber, FeelNumber, FeelNumber)> for FeelDate {
   type Error = DmntkError;
   /// Converts a tuple of numbers into [FeelDate].
   fn try_from(value: (FeelNumber, FeelNumber, FeelNumber)) -> Result<Self, Self::Error> {
-    let year = value.0.into();
-    if value.1 > FeelNumber::zero() && value.2 > FeelNumber::zero() {
+    // components outside their range are rejected before the narrowing conversions
+    let year_in_range = value.0 > -1_000_000_000_isize && value.0 < 1_000_000_000_isize;
+    if year_in_range && value.1 > FeelNumber::zero() && value.1 < 13_isize && value.2 > FeelNumber::zero() && value.2 < 32_isize {
+      let year = value.0.into();
       let month = value.1.into();
       let day = value.2.into();
       if is_valid_date(year, month, day) {
